@@ -1,4 +1,6 @@
 import BobEM.Lemmas.EnrollAscent
+import BobEM.Lemmas.EnrollMode
+import BobEM.Lemmas.EnrollConverge
 
 /-!
 # C07 — ISV and JFA enrolment climbs to the joint posterior mode of the latent factors
@@ -76,6 +78,72 @@ theorem C07_enroll_monotone_le (M : Model C D rU rV ℝ) (sts : List (St C D ℝ
     · exact le_trans (ih (by omega)) (C07_enroll_monotone M sts k hn hs)
     · have : j = k + 1 := by omega
       subst this; exact le_refl _
+
+/-- **the joint mode exists and is unique**: one latent state (with one channel factor per session)
+has a joint log-posterior at least that of every other, and strictly larger than that of any
+different one.  (`logPost` is a strictly concave quadratic of the flattened latent vector:
+`logPost_joint`.) -/
+theorem C07_mode_exists_unique (M : Model C D rU rV ℝ) (sts : List (St C D ℝ))
+    (hn : ∀ st ∈ sts, ∀ c, 0 ≤ st.n c) (hs : ∀ c d, 0 < M.s c d) :
+    ∃ m : Lat C D rU rV ℝ, m.xs.length = sts.length ∧
+      ∀ l' : Lat C D rU rV ℝ, l'.xs.length = sts.length →
+        logPost M sts l' ≤ logPost M sts m ∧ (logPost M sts l' = logPost M sts m → l' = m) :=
+  mode_exists M sts hn hs
+
+/-- **a fixed point of the enrolment iteration is the joint mode**: if one more iteration returns
+the same latent state, no state has a higher joint log-posterior and any state with the same value
+is that state.  So enrolment cannot stall anywhere but at the mode. -/
+theorem C07_fixed_point_is_mode (M : Model C D rU rV ℝ) (sts : List (St C D ℝ)) (l : Lat C D rU rV ℝ)
+    (hfix : sweep M sts l = l)
+    (hn : ∀ st ∈ sts, ∀ c, 0 ≤ st.n c) (hs : ∀ c d, 0 < M.s c d)
+    (l' : Lat C D rU rV ℝ) (hlen' : l'.xs.length = sts.length) :
+    logPost M sts l' ≤ logPost M sts l ∧ (logPost M sts l' = logPost M sts l → l' = l) := by
+  obtain ⟨hlen, hy, hx, hz⟩ := sweep_fixed_blocks M sts l hfix
+  exact fixed_point_is_mode M sts l hlen hn hs hy hx hz l' hlen'
+
+/-- conversely the mode is a fixed point of the iteration (an iteration never decreases `logPost`
+and the mode is the only state with the maximal value) -/
+theorem C07_mode_is_fixed_point (M : Model C D rU rV ℝ) (sts : List (St C D ℝ)) (m : Lat C D rU rV ℝ)
+    (hlen : m.xs.length = sts.length)
+    (hn : ∀ st ∈ sts, ∀ c, 0 ≤ st.n c) (hs : ∀ c d, 0 < M.s c d)
+    (hmax : ∀ l' : Lat C D rU rV ℝ, l'.xs.length = sts.length →
+        logPost M sts l' ≤ logPost M sts m ∧ (logPost M sts l' = logPost M sts m → l' = m)) :
+    sweep M sts m = m := by
+  have hl : (sweep M sts m).xs.length = sts.length := by simp [sweep]
+  have h1 := (hmax _ hl).1
+  have h2 := sweep_ascent M sts m hlen hn hs
+  exact (hmax _ hl).2 (le_antisymm h1 h2)
+
+/-- **the joint log-posterior along the iterations converges**, from below, to a value not above the mode's -/
+theorem C07_posterior_converges (M : Model C D rU rV ℝ) (sts : List (St C D ℝ))
+    (hn : ∀ st ∈ sts, ∀ c, 0 ≤ st.n c) (hs : ∀ c d, 0 < M.s c d) :
+    ∃ L : ℝ, Filter.Tendsto (fun k => logPost M sts (enroll M sts k)) Filter.atTop (nhds L)
+      ∧ ∀ k, logPost M sts (enroll M sts k) ≤ L :=
+  posterior_converges M sts hn hs
+
+/-- **enrolment climbs to the joint mode, geometrically**: there are the (unique) mode `m` and a rate
+`q < 1` (`q = 1 − 1/(6‖P‖_F² + 1)` for the joint precision `P`) such that after `k` iterations the
+log-posterior gap to the mode is at most `q^k` times the initial gap and the squared Euclidean
+distance of the latent factors `(y, x_1 … x_H, z)` to the mode at most twice that.
+ISV (`rV = 0`) and JFA, any number of sessions, fractional counts. -/
+theorem C07_enroll_converges_to_mode (M : Model C D rU rV ℝ) (sts : List (St C D ℝ))
+    (hn : ∀ st ∈ sts, ∀ c, 0 ≤ st.n c) (hs : ∀ c d, 0 < M.s c d) :
+    ∃ m : Lat C D rU rV ℝ, m.xs.length = sts.length ∧
+      (∀ l' : Lat C D rU rV ℝ, l'.xs.length = sts.length →
+        logPost M sts l' ≤ logPost M sts m ∧ (logPost M sts l' = logPost M sts m → l' = m)) ∧
+      ∃ q : ℝ, 0 ≤ q ∧ q < 1 ∧ ∀ k,
+        logPost M sts m - logPost M sts (enroll M sts k) ≤ q ^ k * (logPost M sts m - logPost M sts (enroll M sts 0)) ∧
+        latDist2 (enroll M sts k) m ≤ 2 * (q ^ k * (logPost M sts m - logPost M sts (enroll M sts 0))) :=
+  enroll_converges M sts hn hs
+
+/-- in the limit the latent factors and the log-posterior tend to the mode and its value -/
+theorem C07_enroll_tendsto_mode (M : Model C D rU rV ℝ) (sts : List (St C D ℝ))
+    (hn : ∀ st ∈ sts, ∀ c, 0 ≤ st.n c) (hs : ∀ c d, 0 < M.s c d) :
+    ∃ m : Lat C D rU rV ℝ, m.xs.length = sts.length ∧
+      (∀ l' : Lat C D rU rV ℝ, l'.xs.length = sts.length → logPost M sts l' ≤ logPost M sts m) ∧
+      Filter.Tendsto (fun k => latDist2 (enroll M sts k) m) Filter.atTop (nhds 0) ∧
+      Filter.Tendsto (fun k => logPost M sts (enroll M sts k)) Filter.atTop (nhds (logPost M sts m)) :=
+  enroll_tendsto_mode M sts hn hs
 
 /-- the executed (materialised) enrolment computes the specification's iterates -/
 theorem C07_exec_eq_spec (M : Model C D rU rV ℝ) (sts : List (St C D ℝ)) (k : ℕ) :
